@@ -1,5 +1,5 @@
 (* Codec/Props_codec.v — property theorems of the codec area (statement + `exact lemma` only). *)
-From FlacCodec Require Import Parser_proofs Wf Spec Roundtrip_sub Roundtrip_hdr Roundtrip_frame Agree_frame Totality Progress Stream EncChoice Damage Prefix Interrupted Inverse Inverse_frame StreamRd StreamRd_proofs Lengths.
+From FlacCodec Require Import Parser_proofs Wf Spec Roundtrip_sub Roundtrip_hdr Roundtrip_frame Agree_frame Totality Progress Stream EncChoice Damage Prefix Interrupted Inverse Inverse_frame StreamRd StreamRd_proofs Lengths ParseWf.
 From FlacBase Require Import Crc.
 Open Scope N_scope.
 
@@ -80,6 +80,26 @@ Proof. intros. apply dec_frame_agree; auto. Qed.
 Theorem C17_subframe_expands_to_block_size : forall bs bps sf,
   wf_subframe bs bps sf = true -> length (sem_subframe bs sf) = N.to_nat bs.
 Proof. exact sem_subframe_length. Qed.
+
+(* C17: whatever the structural parser accepts is a well-formed tree, so for EVERY accepted frame each
+   subframe expands to exactly block-size samples *)
+Theorem C17_parsed_frames_are_well_formed : forall si bytes f rest,
+  struct_frame si bytes = Ok (f, rest) -> wf_frame si f = true.
+Proof. exact struct_frame_wf. Qed.
+Lemma wf_subframes_lengths h : forall subs i, wf_subframes h i subs = true ->
+  Forall (fun sf => length (sem_subframe (h_bs h) sf) = N.to_nat (h_bs h)) subs.
+Proof.
+  induction subs as [|sf subs IH]; intros i H; [constructor|]. cbn [wf_subframes] in H.
+  apply andb_prop in H. destruct H as [H1 H2]. constructor; [eapply sem_subframe_length; eauto|eapply IH; eauto].
+Qed.
+Theorem C17_parsed_subframes_expand_to_block_size : forall si bytes f rest,
+  struct_frame si bytes = Ok (f, rest) ->
+  Forall (fun sf => length (sem_subframe (h_bs (f_hdr f)) sf) = N.to_nat (h_bs (f_hdr f))) (f_subs f).
+Proof.
+  intros si bytes f rest H. apply struct_frame_wf in H. unfold wf_frame in H.
+  repeat (apply andb_prop in H; destruct H as [H ?]).
+  eapply wf_subframes_lengths; eauto.
+Qed.
 
 (* C04: no byte string makes the frame decoder panic ... *)
 Theorem C04_frame_total : forall si chk bytes,
